@@ -25,6 +25,18 @@ pub enum WOp {
     TabWrite { which: String, v: u64 },
 }
 
+/// Set by C19: arguments of fixed-width writes are cleaned before they reach the library (the
+/// `checks` feature makes dirty arguments panic by design).
+pub static SANITIZE: std::sync::atomic::AtomicBool = std::sync::atomic::AtomicBool::new(false);
+
+pub fn clean_arg(v: u64, n: usize) -> u64 {
+    if SANITIZE.load(std::sync::atomic::Ordering::Relaxed) {
+        v & mask64(n)
+    } else {
+        v
+    }
+}
+
 pub fn mask64(n: usize) -> u64 {
     if n >= 64 {
         u64::MAX
@@ -144,7 +156,7 @@ pub fn run_writer(cfg: WCfg, end: WEnd, ops: &[WOp]) -> Result<WDone, Failure> {
                 let exp = model_wop(op, e, wb, &mut m);
                 debug_assert_eq!(exp, rets[i]);
                 let got: Result<Option<usize>, String> = match op {
-                    WOp::Bits { v, n } => w.write_bits(*v, *n as usize).map(Some),
+                    WOp::Bits { v, n } => w.write_bits(clean_arg(*v, *n as usize), *n as usize).map(Some),
                     WOp::Unary(x) => w.write_unary(*x).map(Some),
                     WOp::Flush => w.flush().map(Some),
                     WOp::Code { call, v } => w.write_code(call, *v).map(Some),
